@@ -71,7 +71,8 @@ def parse_format_string(format_str: str, description_template: Optional[str] = N
     field_pattern = re.compile(r'\{([-+]?)(\w+|\*)(?::([^}]+))?\}')
 
     # Split by comma and parse each column
-    parts = [p.strip() for p in format_str.split(',')]
+    # (commas inside a {field:format} specifier, e.g. {date:%b %d, %Y}, do not separate columns)
+    parts = [p.strip() for p in re.split(r',(?![^{}]*\})', format_str)]
 
     if not parts:
         raise ValueError("Empty format string")
